@@ -12,9 +12,9 @@ for d in sorted(os.listdir(os.path.join(here, "seeded"))):
     if d in rows and d not in notes or not os.path.exists(mp):
         continue
     m = json.load(open(mp))
-    desc = re.sub(r"\s+", " ", str(m.get("description", "")))[:140].replace("|", "/")
+    desc = re.sub(r"\s+", " ", str(m.get("description") or m.get("change", "")))[:140].replace("|", "/")
     res = " ".join(m.get("checks_run", []))
     rows[d] = f"| {d} | {m.get('property', d[:3])} | {desc} | {res} | {notes.get(d, '')} |"
-key = lambda k: (k[:3], 0 if "-r" not in k else int(re.search(r"-r(\d)", k).group(1)), k)
+key = lambda k: (k[:3], 0 if "-r" not in k else int(re.search(r"-r(\d+)", k).group(1)), k)
 open(idx, "w").write("\n".join(head[:6] + [rows[k] for k in sorted(rows, key=key)] + [l for l in head[6:] if l.strip()]) + "\n")
 print(len(rows), "rows")
